@@ -424,7 +424,10 @@ func TestVerifC11ConnHandshake(t *testing.T) {
 		case fCutI:
 			off = s.Int("cutI.off", 0, ActOneSize+ActThreeSize-1)
 		case fCutR:
-			off = s.Int("cutR.off", 0, ActTwoSize)
+			// Strictly inside act two: a cut after the complete act would
+			// race with the initiator's act three (the closing goroutine is
+			// the responder's), making the outcome schedule dependent.
+			off = s.Int("cutR.off", 0, ActTwoSize-1)
 		}
 		labels = append(labels, fmt.Sprintf("conn:fault:%d", fault))
 
